@@ -57,6 +57,10 @@
 static uint16 Lastref        = 0; /* Last ref read/written */
 static uint16 Next_label_ref = 0; /* Next file label ref to read/write */
 static uint16 Next_desc_ref  = 0; /* Next file desc ref to read/write */
+/* TRUE: the file label / description DFANIgetfann read last was the last one in the file.  The end of the walk cannot be
+   encoded in Next_*_ref: every value is either a ref an annotation may have or DFREF_WILDCARD */
+static int Label_walk_done = FALSE;
+static int Desc_walk_done  = FALSE;
 
 static char *Lastfile = NULL;
 
@@ -1398,6 +1402,9 @@ DFANIgetfannlen(int32 file_id, int type, int isfirst)
         anntag = DFTAG_FD;
         annref = (uint16)((isfirst == 1) ? DFREF_WILDCARD : Next_desc_ref);
     }
+    /* past the last one: nothing more to report until the walk is started again */
+    if (isfirst != 1 && ((type == DFAN_LABEL) ? Label_walk_done : Desc_walk_done))
+        HGOTO_ERROR(DFE_NOMATCH, FAIL);
     aid = Hstartread(file_id, anntag, annref);
     if (aid == FAIL)
         HGOTO_ERROR(DFE_BADAID, FAIL);
@@ -1406,10 +1413,14 @@ DFANIgetfannlen(int32 file_id, int type, int isfirst)
         Hendaccess(aid);
         HGOTO_ERROR(DFE_NOMATCH, FAIL);
     }
-    if (type == DFAN_LABEL) /* prepare for next call */
-        Next_label_ref = annref;
-    else
-        Next_desc_ref = annref;
+    if (type == DFAN_LABEL) { /* prepare for next call */
+        Next_label_ref  = annref;
+        Label_walk_done = FALSE;
+    }
+    else {
+        Next_desc_ref  = annref;
+        Desc_walk_done = FALSE;
+    }
 
     Hendaccess(aid);
     Lastref = annref; /* remember ref last accessed */
@@ -1474,6 +1485,9 @@ DFANIgetfann(int32 file_id, char *ann, int32 maxlen, int type, int isfirst)
         anntag = DFTAG_FD;
         annref = (uint16)((isfirst == 1) ? DFREF_WILDCARD : Next_desc_ref);
     }
+    /* past the last one: nothing more to report until the walk is started again */
+    if (isfirst != 1 && ((type == DFAN_LABEL) ? Label_walk_done : Desc_walk_done))
+        HGOTO_ERROR(DFE_NOMATCH, FAIL);
 
     if ((aid = Hstartread(file_id, anntag, annref)) == FAIL)
         HGOTO_ERROR(DFE_BADAID, FAIL);
@@ -1499,11 +1513,15 @@ DFANIgetfann(int32 file_id, char *ann, int32 maxlen, int type, int isfirst)
 
     /* prepare for next call */
     if (FAIL ==
-        Hnextread(aid, anntag, DFREF_WILDCARD, DF_CURRENT)) { /* If no more of them, set Next_ ???_ref */
-        if (type == DFAN_LABEL)                               /*    to one higher than the ref just    */
-            Next_label_ref = (uint16)(annref + 1);            /*    read so that next call will fail.  */
-        else
-            Next_desc_ref = (uint16)(annref + 1);
+        Hnextread(aid, anntag, DFREF_WILDCARD, DF_CURRENT)) { /* If no more of them, mark the walk as done so  */
+        if (type == DFAN_LABEL) {                             /*    that the next call will fail (annref + 1   */
+            Next_label_ref  = (uint16)(annref + 1);           /*    may be the ref of another annotation, or 0 */
+            Label_walk_done = TRUE;                           /*    = DFREF_WILDCARD after ref 65535)          */
+        }
+        else {
+            Next_desc_ref  = (uint16)(annref + 1);
+            Desc_walk_done = TRUE;
+        }
     }
     else { /* Otherwise save the next ref */
         if (FAIL == Hinquire(aid, (int32 *)NULL, (uint16 *)NULL, &annref, (int32 *)NULL, (int32 *)NULL,
@@ -1511,10 +1529,14 @@ DFANIgetfann(int32 file_id, char *ann, int32 maxlen, int type, int isfirst)
             Hendaccess(aid);
             HGOTO_ERROR(DFE_NOMATCH, FAIL);
         }
-        if (type == DFAN_LABEL)
-            Next_label_ref = annref;
-        else
-            Next_desc_ref = annref;
+        if (type == DFAN_LABEL) {
+            Next_label_ref  = annref;
+            Label_walk_done = FALSE;
+        }
+        else {
+            Next_desc_ref  = annref;
+            Desc_walk_done = FALSE;
+        }
     }
 
     Hendaccess(aid);
